@@ -17,6 +17,19 @@ CLAIMS = {
    note=TB + 'Not decided: split/join/replace/trim as sequence functions, search (strstr/strchr are libc), printf-style formatting, float text, '
         'integer value round trip (SAT does not finish on divide/multiply chains; only canonical decimal form and capacity are proved), unsigned/ULong constructors (snprintf).',
    technique='CBMC code contracts (DFCC) on extracted function bodies, ghost-index postconditions'),
+ 'C08': dict(level='proof', design='6 C08',
+   text='For EVERY Unicode scalar value at once (one symbolic code point): utf32toUtf8 emits exactly the bytes of Unicode table 3-6, utf8toUtf32 returns it, '
+        'utf8toUtf16 gives table 3-5, utf16toUtf8 returns the same bytes, code-point iteration yields the value and its length, count() of two values is 2. '
+        'For ANY NUL-terminated bytes / 0-terminated code arrays of symbolic length (loop contracts): the four converters, count() and the iteration step stay '
+        'inside input and inside the output capacity their call sites give, and terminate.',
+   note=TB + 'Not decided: whole-sequence equality (k-th output = decoding of k-th sequence), chars()/fromCodes wrappers (Array), case mapping tables and equalsNocase (in progress), local-charset conversions.',
+   technique='CBMC: full-domain harness over all scalar values + code contracts with loop contracts for arbitrary bytes'),
+ 'C16': dict(level='proof', design='6 C16',
+   text='Per scalar type (u16,i16,i32,u32,f32,i64,u64,f64 as bit patterns) and byte order (BIG, LITTLE, NATIVE): swapBytes, StreamBufferReader::read2/4/8, '
+        'StreamBuffer/File/Socket operator<<(const T&) and File/Socket operator>>(T&) write/consume exactly sizeof(T) bytes equal to the canonical encoding in that order; '
+        'frames show the order setting and the source are untouched (order changes affect only later values). Array writers: length*sizeof(T) bytes, bounded to 3 elements.',
+   note=TB + 'write()/read() are ghost wire stubs (the real ones are Array<byte>::append, fwrite/fread, send/recv). Host little-endian. Strings and File::operator>>(String&) not covered.',
+   technique='CBMC code contracts (DFCC) per template instantiation, ghost-index byte specification'),
  'C15': dict(level='proof', design='6 C15',
    text='encodeBase64 proved against an RFC 4648 specification macro for every input up to 4096 bytes (10^6 in the thorough tier) with a loop contract; '
         'more units are added as they are built.',
